@@ -582,7 +582,7 @@ def main():
         except Exception as ex:     # noqa: the implementation raised where the property promises an answer
             ck.violation({'kind': 'implementation-raises', 'case': {'k': 'pair', 'a': sa, 'b': sb, 'styles': list(sty), 'tag': tag, 'what': what},
                           'exception': repr(ex), 'how_to_replay': 'bin/check C15 --replay <this file>'})
-            raise SystemExit(1)
+            ck.finish(rule='aborted: the implementation raised while being observed')
         m = {'k': 'pair', 'a': sa, 'b': sb, 'styles': list(sty), 'tag': tag, 'what': what, 'obs': o}
         add(pair_lit(a, b, o), m)
         bad = oracle_pair(o, tag)
